@@ -723,4 +723,464 @@ theorem stage34B (half : Nat) (hh : unpack .f64 half = .fin false 45035996273704
       exact tiny_neg M E' d hd (by omega) hM1 (by omega) hE1
   exact ⟨by omega, floor_small _ hlt⟩
 
+/-! ## wrappers and constants -/
+
+set_option maxRecDepth 100000 in
+theorem unpack64_c64 : unpack .f64 (F64.ofInt 64).nb = .fin false 4503599627370496 (-46) := by
+  decide +kernel
+set_option maxRecDepth 100000 in
+theorem unpack64_half : unpack .f64 Enc.f64Half.nb = .fin false 4503599627370496 (-53) := by
+  decide +kernel
+theorem nb_m128 : (F32.ofInt (-128)).nb = 3271557120 := by decide
+theorem nb_128 : (F32.ofInt 128).nb = 1124073472 := by decide
+
+theorem nb64_ofNatBits (n : Nat) (h : n < 18446744073709551616) : (F64.ofNatBits n).nb = n := by
+  simp only [F64.nb, F64.ofNatBits, UInt64.toNat_ofNat']
+  omega
+
+theorem toOrd_f32 (x : Nat) (hx : Num.isNaN .f32 x = false) :
+    toOrd .f32 x = some (if x ≥ 2147483648 then -((x - 2147483648 : Nat) : Int) else (x : Int)) := by
+  simp only [toOrd, hx, signBit_f32, Bool.false_eq_true, if_false]
+  split <;> rfl
+
+/-- the model's float guard `-128 ≤ f < 128`, on bits -/
+theorem range_bits (f : F32) (h1 : F32.ofInt (-128) ≤ f) (h2 : f < F32.ofInt 128) :
+    f.isNaN = false ∧ (f.nb < 2147483648 → f.nb < 1124073472) ∧
+      (2147483648 ≤ f.nb → f.nb - 2147483648 ≤ 1124073472) := by
+  have h1' : Num.le .f32 (F32.ofInt (-128)).nb f.nb = true := h1
+  have h2' : Num.lt .f32 f.nb (F32.ofInt 128).nb = true := h2
+  rw [nb_m128] at h1'
+  rw [nb_128] at h2'
+  have hn : Num.isNaN .f32 f.nb = false := by
+    cases hc : Num.isNaN .f32 f.nb with
+    | false => rfl
+    | true => simp [Num.lt, toOrd, hc] at h2'
+  have c1 : Num.isNaN .f32 3271557120 = false := by decide
+  have c2 : Num.isNaN .f32 1124073472 = false := by decide
+  simp only [Num.le, Num.lt, toOrd_f32 _ hn, toOrd_f32 _ c1, toOrd_f32 _ c2, decide_eq_true_eq] at h1' h2'
+  refine ⟨hn, ?_, ?_⟩
+  · intro h; rw [if_neg (by omega)] at h2'; simp at h2'; omega
+  · intro h; rw [if_pos (by omega)] at h1'; simp at h1'; omega
+
+
+theorem scale_spec (k sm : Int) (P R T Q2 S : Nat) (hPT : P * T = 2^150) (hRT : R * T = 2^149)
+    (hQT : Q2 * T = 128 * S) (hT : 0 < T) (h1 : k * (P : Int) ≤ sm * (Q2 : Int) + (R : Int))
+    (h2 : sm * (Q2 : Int) + (R : Int) < (k + 1) * (P : Int)) :
+    k * 2^150 ≤ 128 * (sm * (S : Int)) + 2^149 ∧ 128 * (sm * (S : Int)) + 2^149 < (k + 1) * 2^150 := by
+  have e1 : (P : Int) * (T : Int) = ((2^150 : Nat) : Int) := by rw [← Int.natCast_mul, hPT]
+  have e2 : (R : Int) * (T : Int) = ((2^149 : Nat) : Int) := by rw [← Int.natCast_mul, hRT]
+  have e3 : (Q2 : Int) * (T : Int) = 128 * (S : Int) := by
+    rw [← Int.natCast_mul, hQT, Int.natCast_mul]; rfl
+  have hTnn : (0 : Int) ≤ T := by omega
+  have hTpos : (0 : Int) < T := by omega
+  have m1 := Int.mul_le_mul_of_nonneg_right h1 hTnn
+  have m2 := Int.mul_lt_mul_of_pos_right h2 hTpos
+  rw [Int.mul_assoc, e1, Int.add_mul, Int.mul_assoc, e3, e2, Int.mul_left_comm] at m1
+  rw [Int.mul_assoc (k + 1), e1, Int.add_mul, Int.mul_assoc, e3, e2, Int.mul_left_comm] at m2
+  generalize sm * (S : Int) = X at *
+  constructor <;> omega
+
+theorem k_bound (k Z' : Int) (P : Nat) (hP : 1024 ≤ P) (hZ : Z'.natAbs < 33554432)
+    (h1 : k * (P : Int) ≤ Z') (h2 : Z' < (k + 1) * (P : Int)) : k.natAbs < 16777216 := by
+  have hPnn : (0 : Int) ≤ P := by omega
+  by_cases hk : k < 32769
+  · by_cases hk' : -32770 < k
+    · omega
+    · have : (k + 1) * (P : Int) ≤ (-32769) * (P : Int) :=
+        Int.mul_le_mul_of_nonneg_right (by omega) hPnn
+      omega
+  · have : 32769 * (P : Int) ≤ k * (P : Int) := Int.mul_le_mul_of_nonneg_right (by omega) hPnn
+    omega
+
+/-- `f·2^149` as an integer, from the unpacked triple -/
+def scaledOf (s : Bool) (m : Nat) (e : Int) : Int :=
+  (if s then -(m : Int) else (m : Int)) * ((2^(e + 149).toNat : Nat) : Int)
+
+theorem f64_mul_def (a b : F64) : a * b = F64.mul a b := rfl
+theorem f64_add_def (a b : F64) : a + b = F64.add a b := rfl
+
+/-- the five stages chained, for a nonzero finite `f = ±m·2^e` with `|f| ≤ 128` -/
+theorem quantize_core (f : F32) (s : Bool) (m : Nat) (e : Int) (j : Nat)
+    (hu : unpack .f32 f.nb = .fin s m e) (h1 : 2^j ≤ m) (h2 : m < 2^(j+1)) (hj : j ≤ 23)
+    (he : -149 ≤ e) (hje : e + j ≤ 7) :
+    ∃ k : Int, k.natAbs < 16777216 ∧
+      ((F64.ofF32 f * F64.ofInt 64 + Enc.f64Half).floor).toF32 = F32.ofInt k ∧
+      k * 2^150 ≤ 128 * scaledOf s m e + 2^149 ∧ 128 * scaledOf s m e + 2^149 < (k + 1) * 2^150 := by
+  -- stage 1
+  obtain ⟨hM1, hM2⟩ := norm64 m j (52 - j) (by omega) h1 h2
+  have hs1 := stage1 f.nb s m e j (52 - j) hu (by omega) h1 h2 he (by omega)
+  have hc : (F64.ofF32 f).nb = pack64 s (m * 2^(52 - j)) (e - ((52 - j : Nat) : Int)) := by
+    unfold F64.ofF32
+    rw [hs1, nb64_ofNatBits _ (pack64_lt _ _ _ hM2 (by omega))]
+  -- stage 2
+  have hs2 := stage2 (F64.ofInt 64).nb unpack64_c64 s (m * 2^(52 - j)) (e - ((52 - j : Nat) : Int))
+    hM1 hM2 (by omega) (by omega)
+  have hy : (F64.ofF32 f * F64.ofInt 64).nb =
+      pack64 s (m * 2^(52 - j)) (e - ((52 - j : Nat) : Int) + 6) := by
+    rw [f64_mul_def]; unfold F64.mul
+    rw [hc, hs2, nb64_ofNatBits _ (pack64_lt _ _ _ hM2 (by omega))]
+  -- the 24-bit normalised mantissa
+  have hsplit : m * 2^(52 - j) = m * 2^(23 - j) * 536870912 := by
+    have c : (536870912 : Nat) = 2^29 := by decide
+    rw [c, Nat.mul_assoc, ← Nat.pow_add]; congr 2; omega
+  obtain ⟨hl1, hl2⟩ : 8388608 ≤ m * 2^(23 - j) ∧ m * 2^(23 - j) < 16777216 := by omega
+  -- reduce the goal to: floor (y + 1/2) = int64 k with the spec
+  suffices hmain : ∃ k : Int, k.natAbs < 16777216 ∧
+      Num.add .f64 (F64.ofF32 f * F64.ofInt 64).nb Enc.f64Half.nb < 18446744073709551616 ∧
+      Num.floor .f64 (Num.add .f64 (F64.ofF32 f * F64.ofInt 64).nb Enc.f64Half.nb) = int64 k ∧
+      k * 2^150 ≤ 128 * scaledOf s m e + 2^149 ∧ 128 * scaledOf s m e + 2^149 < (k + 1) * 2^150 by
+    obtain ⟨k, hk, hlt, hfl, hsp1, hsp2⟩ := hmain
+    refine ⟨k, hk, ?_, hsp1, hsp2⟩
+    obtain ⟨h5a, h5b⟩ := stage5 k hk
+    rw [f64_add_def]
+    unfold F64.add F64.floor F64.toF32
+    rw [nb64_ofNatBits _ hlt, hfl, nb64_ofNatBits _ h5a, h5b]
+    rfl
+  rw [hy]
+  by_cases hA : 0 ≤ e + j + 7
+  · -- the addition is exact
+    obtain ⟨a, ha⟩ : ∃ a : Nat, (a : Int) = e + j + 7 := ⟨(e + j + 7).toNat, by omega⟩
+    have ha14 : a ≤ 14 := by omega
+    have hE : e - ((52 - j : Nat) : Int) + 6 = (a : Int) - 53 := by omega
+    rw [hE, hsplit]
+    obtain ⟨k, hlt, hfl, hsp1, hsp2⟩ := stage34A _ unpack64_half s (m * 2^(23 - j)) a hl1 hl2 ha14
+    have hP : 1024 ≤ 2^(24 - a) := by
+      have := Nat.pow_le_pow_right (n := 2) (by omega) (show 10 ≤ 24 - a by omega)
+      simpa using this
+    have hR : 2^(23 - a) ≤ 8388608 := by
+      have := Nat.pow_le_pow_right (n := 2) (by omega) (show 23 - a ≤ 23 by omega)
+      simpa using this
+    have hZb : ((if s then -((m * 2^(23 - j) : Nat) : Int) else ((m * 2^(23 - j) : Nat) : Int)) +
+        ((2^(23 - a) : Nat) : Int)).natAbs < 33554432 := by
+      generalize m * 2^(23 - j) = mn at *
+      generalize 2^(23 - a) = R at *
+      cases s
+      · simp only [Bool.false_eq_true, ↓reduceIte]; omega
+      · simp only [↓reduceIte]; omega
+    have hkb := k_bound k _ _ hP hZb hsp1 hsp2
+    have hconv : (if s then -((m * 2^(23 - j) : Nat) : Int) else ((m * 2^(23 - j) : Nat) : Int)) =
+        (if s then -(m : Int) else (m : Int)) * ((2^(23 - j) : Nat) : Int) := by
+      cases s
+      · simp only [Bool.false_eq_true, ↓reduceIte, Int.natCast_mul]
+      · simp only [↓reduceIte, Int.natCast_mul, Int.neg_mul]
+    rw [hconv] at hsp1 hsp2
+    obtain ⟨n, hn⟩ : ∃ n : Nat, (n : Int) = e + 149 := ⟨(e + 149).toNat, by omega⟩
+    have hnn : (e + 149).toNat = n := by omega
+    have hspec := scale_spec k (if s then -(m : Int) else (m : Int)) (2^(24 - a)) (2^(23 - a))
+      (2^(126 + a)) (2^(23 - j)) (2^n)
+      (by rw [← Nat.pow_add]; congr 1; omega) (by rw [← Nat.pow_add]; congr 1; omega)
+      (by
+        have c : (128 : Nat) = 2^7 := by decide
+        rw [c, ← Nat.pow_add, ← Nat.pow_add]; congr 1; omega)
+      (Nat.two_pow_pos _) hsp1 hsp2
+    unfold scaledOf
+    rw [hnn]
+    exact ⟨k, hkb, hlt, hfl, hspec.1, hspec.2⟩
+  · -- |64 f| < 1/2
+    have hE1 : -1074 ≤ e - ((52 - j : Nat) : Int) + 6 := by omega
+    have hE2 : e - ((52 - j : Nat) : Int) + 6 ≤ -54 := by omega
+    obtain ⟨hlt, hfl⟩ := stage34B _ unpack64_half s (m * 2^(52 - j)) _ hM1 (by omega) hE1 hE2
+    refine ⟨0, by decide, hlt, by rw [hfl, int64_zero], ?_, ?_⟩
+    all_goals
+      obtain ⟨n, hn⟩ : ∃ n : Nat, (n : Int) = e + 149 := ⟨(e + 149).toNat, by omega⟩
+      have hnn : (e + 149).toNat = n := by omega
+      unfold scaledOf
+      rw [hnn]
+      have hb1 : m * 2^n < 2^(j + 1) * 2^n := (Nat.mul_lt_mul_right (Nat.two_pow_pos _)).2 h2
+      rw [← Nat.pow_add] at hb1
+      have hb2 := Nat.pow_le_pow_right (n := 2) (by omega) (show j + 1 + n ≤ 142 by omega)
+      have c : (2:Nat)^142 = 5575186299632655785383929568162090376495104 := by decide
+      rw [c] at hb2
+      clear c
+      have hcast : ((2^n : Nat) : Int) * 1 = ((2^n : Nat) : Int) := Int.mul_one _
+      cases s
+      · simp only [Bool.false_eq_true, ↓reduceIte, ← Int.natCast_mul]
+        generalize m * 2^n = X at *
+        omega
+      · simp only [↓reduceIte, Int.neg_mul, ← Int.natCast_mul]
+        generalize m * 2^n = X at *
+        omega
+
+
+/-! ## the headline theorem -/
+
+/-- `f·2^149` as an integer, for every finite float32 (normal or subnormal) -/
+def scaled (f : F32) : Int :=
+  (if sgn f = 1 then -((if expo f = 0 then mant f else mant f + 8388608 : Nat) : Int)
+   else ((if expo f = 0 then mant f else mant f + 8388608 : Nat) : Int)) *
+    ((2^(expo f - 1) : Nat) : Int)
+
+theorem quantize_eq (f : F32) (h1 : F32.ofInt (-128) ≤ f) (h2 : f < F32.ofInt 128) :
+    Enc.quantize false f =
+      ((F64.ofF32 f * F64.ofInt 64 + Enc.f64Half).floor).toF32 / F32.ofInt 64 := by
+  simp only [Enc.quantize]
+  rw [if_pos ⟨by rfl, h1, h2⟩]
+
+set_option maxRecDepth 100000 in
+theorem quantize_zeros :
+    ((F64.ofF32 ⟨0⟩ * F64.ofInt 64 + Enc.f64Half).floor).toF32 = F32.ofInt 0 ∧
+    ((F64.ofF32 ⟨0x80000000⟩ * F64.ofInt 64 + Enc.f64Half).floor).toF32 = F32.ofInt 0 := by
+  decide +kernel
+
+/-- **`quantize` rounds to the nearest multiple of 1/64, ties up**, for every float32 in the guarded
+    range: the result is `float32(k)/64` where `k = ⌊64·f + 1/2⌋`, stated on the exact integer
+    `scaled f = f·2^149`:  `k·2^150 ≤ 128·(f·2^149) + 2^149 < (k+1)·2^150`, i.e.
+    `k ≤ 64·f + 1/2 < k + 1`, i.e. `64·f − 1/2 < k ≤ 64·f + 1/2`. -/
+theorem quantize_nearest (f : F32) (h1 : F32.ofInt (-128) ≤ f) (h2 : f < F32.ofInt 128) :
+    ∃ k : Int, -8192 ≤ k ∧ k ≤ 8192 ∧
+      Enc.quantize false f = F32.ofInt k / F32.ofInt 64 ∧
+      k * 2^150 ≤ 128 * scaled f + 2^149 ∧ 128 * scaled f + 2^149 < (k + 1) * 2^150 := by
+  rw [quantize_eq f h1 h2]
+  obtain ⟨hnan, hpos, hneg⟩ := range_bits f h1 h2
+  obtain ⟨hf, hs, hex, hmt⟩ := nb_fields f
+  have hnb := nb_lt f
+  by_cases hz : f.nb % 2147483648 = 0
+  · -- ±0
+    have hsc : scaled f = 0 := by
+      have h1 : expo f = 0 := by omega
+      have h2 : mant f = 0 := by omega
+      simp [scaled, h1, h2]
+    refine ⟨0, by omega, by omega, ?_, by rw [hsc]; omega, by rw [hsc]; omega⟩
+    rcases zero_cases f hz with rfl | rfl
+    · rw [quantize_zeros.1]
+    · rw [quantize_zeros.2]
+  · -- the magnitude bits are at most those of 128.0, with equality only for -128
+    have hex134 : expo f ≤ 134 := by omega
+    have hsuff : ∀ (s : Bool) (m : Nat) (e : Int) (j : Nat), unpack .f32 f.nb = .fin s m e →
+        2^j ≤ m → m < 2^(j+1) → j ≤ 23 → -149 ≤ e → e + j ≤ 7 →
+        scaledOf s m e = scaled f → -(2:Int)^156 ≤ scaled f → scaled f < 2^156 →
+        ∃ k : Int, -8192 ≤ k ∧ k ≤ 8192 ∧
+          ((F64.ofF32 f * F64.ofInt 64 + Enc.f64Half).floor).toF32 / F32.ofInt 64 =
+            F32.ofInt k / F32.ofInt 64 ∧
+          k * 2^150 ≤ 128 * scaled f + 2^149 ∧ 128 * scaled f + 2^149 < (k + 1) * 2^150 := by
+      intro s m e j hu h1' h2' hj he hje hsc hlo hhi
+      obtain ⟨k, _, hq, hs1, hs2⟩ := quantize_core f s m e j hu h1' h2' hj he hje
+      rw [hsc] at hs1 hs2
+      exact ⟨k, by omega, by omega, by rw [hq], hs1, hs2⟩
+    by_cases hex0 : expo f = 0
+    · -- subnormal
+      have hm0 : 0 < mant f := by omega
+      obtain ⟨j, kk, hjk, hj1, hj2⟩ := exists_jk (mant f) hm0 (by omega)
+      have hj22 : j ≤ 22 := by
+        rcases Nat.lt_or_ge j 23 with h | h
+        · omega
+        · have := Nat.pow_le_pow_right (n := 2) (by omega) h
+          have c : (2:Nat)^23 = 8388608 := by decide
+          rw [c] at this
+          clear c
+          omega
+      have hu := unpack_f32 f.nb
+      have e1 : f.nb / 8388608 % 256 = 0 := hex0
+      have e2 : f.nb % 8388608 = mant f := rfl
+      rw [e1, e2, if_neg (by omega), if_pos rfl] at hu
+      have hsg : negB f.nb = decide (sgn f = 1) := by
+        unfold negB
+        have : f.nb / 2147483648 % 2 = sgn f := by
+          show f.nb / 2147483648 % 2 = f.nb / 2147483648
+          omega
+        rw [this]
+        by_cases h : sgn f = 1 <;> simp [h]
+      have hsc : scaledOf (negB f.nb) (mant f) (-149) = scaled f := by
+        unfold scaledOf scaled
+        rw [hsg, hex0]
+        by_cases h : sgn f = 1 <;> simp [h]
+      have hval : scaled f = if sgn f = 1 then -(mant f : Int) else (mant f : Int) := by
+        unfold scaled; rw [hex0]; by_cases h : sgn f = 1 <;> simp [h]
+      exact hsuff _ _ _ j hu hj1 hj2 (by omega) (by omega) (by omega) hsc
+        (by rw [hval]; split <;> omega) (by rw [hval]; split <;> omega)
+    · -- normal
+      have hu := unpack_normal (sgn f) (expo f) (mant f) hs (by omega) (by omega) hmt
+      rw [← hf] at hu
+      have hsc : scaledOf (sgn f == 1) (mant f + 8388608) ((expo f : Int) - 150) = scaled f := by
+        unfold scaledOf scaled
+        have : ((expo f : Int) - 150 + 149).toNat = expo f - 1 := by omega
+        rw [this, if_neg hex0]
+        by_cases h : sgn f = 1 <;> simp [h]
+      have c23 : (2:Nat)^23 ≤ mant f + 8388608 := by
+        have c : (2:Nat)^23 = 8388608 := by decide
+        rw [c]; clear c; omega
+      have c24 : mant f + 8388608 < (2:Nat)^(23 + 1) := by
+        have c : (2:Nat)^(23+1) = 16777216 := by decide
+        rw [c]; clear c; omega
+      -- magnitude bound: below 2^156, or exactly 2^156 for -128
+      have hmag : (mant f + 8388608) * 2^(expo f - 1) ≤ 2^156 ∧
+          (sgn f = 0 → (mant f + 8388608) * 2^(expo f - 1) < 2^156) := by
+        by_cases h134 : expo f = 134
+        · have hm0 : mant f = 0 := by omega
+          have hsg : sgn f = 1 := by omega
+          rw [h134, hm0]
+          exact ⟨by decide, by omega⟩
+        · have hp := Nat.pow_le_pow_right (n := 2) (by omega) (show expo f - 1 ≤ 132 by omega)
+          have hmul := Nat.mul_le_mul (show mant f + 8388608 ≤ 16777215 by omega) hp
+          have c : 16777215 * 2^132 < 2^156 := by decide
+          exact ⟨by omega, fun _ => by omega⟩
+      have hval : scaled f = if sgn f = 1 then -(((mant f + 8388608) * 2^(expo f - 1) : Nat) : Int)
+          else (((mant f + 8388608) * 2^(expo f - 1) : Nat) : Int) := by
+        unfold scaled; rw [if_neg hex0]
+        by_cases h : sgn f = 1 <;> simp [h, Int.natCast_mul, Int.neg_mul]
+      have c156 : ((2^156 : Nat) : Int) = 2^156 := by decide
+      generalize (mant f + 8388608) * 2^(expo f - 1) = X at *
+      exact hsuff _ _ _ 23 hu c23 c24 (by omega) (by omega) (by omega) hsc
+        (by rw [hval]; split <;> omega) (by rw [hval]; split <;> omega)
+
+/-! ## corollaries -/
+
+/-- high-resolution coordinates are not quantised -/
+theorem quantize_hi (f : F32) : Enc.quantize true f = f := by
+  simp [Enc.quantize]
+
+/-- outside the guard (including NaN, ±Inf and exactly 128) the value is left alone -/
+theorem quantize_out_of_range (f : F32) (h : ¬ (F32.ofInt (-128) ≤ f ∧ f < F32.ofInt 128)) :
+    Enc.quantize false f = f := by
+  simp only [Enc.quantize]
+  rw [if_neg]
+  intro hc; exact h ⟨hc.2.1, hc.2.2⟩
+
+/-- bits of `float32(k)/64` for `0 < |k| < 2^24` -/
+theorem ofInt_div64_bits (k : Int) (h0 : k ≠ 0) (hk : k.natAbs < 16777216) :
+    ∃ kk : Nat, kk ≤ 23 ∧ 8388608 ≤ k.natAbs * 2^kk ∧ k.natAbs * 2^kk < 16777216 ∧
+      (F32.ofInt k / F32.ofInt 64).nb = (if k < 0 then 1 else 0) * 2147483648 + (144 - kk) * 8388608 +
+        (k.natAbs * 2^kk - 8388608) := by
+  obtain ⟨kk, hkk, hq1, hq2, hnb, _⟩ := ofInt_small k h0 hk
+  have hex : expo (F32.ofInt k) = 150 - kk := by
+    rw [expo_nb, hnb]; split <;> omega
+  have hd := div64_nb (F32.ofInt k) (by omega) (by omega)
+  refine ⟨kk, hkk, hq1, hq2, ?_⟩
+  rw [hd, hnb]; split <;> omega
+
+theorem ofInt_div64_not_nan (k : Int) (hk : k.natAbs < 16777216) :
+    (F32.ofInt k / F32.ofInt 64).isNaN = false := by
+  by_cases h0 : k = 0
+  · subst h0; decide
+  · obtain ⟨kk, hkk, hq1, hq2, hnb⟩ := ofInt_div64_bits k h0 hk
+    rw [isNaN_nb, hnb]
+    simp only [decide_eq_false_iff_not]
+    split <;> omega
+
+/-- the quantised value always takes a short (1- or 2-byte) coordinate form, or is exactly 128.0 -/
+theorem quantize_short (f : F32) (h1 : F32.ofInt (-128) ≤ f) (h2 : f < F32.ofInt 128) :
+    (Enc.encodeCoordinate (Enc.quantize false f)).length ≠ 4 ∨ Enc.quantize false f = F32.ofInt 128 := by
+  obtain ⟨k, hk1, hk2, hq, _, _⟩ := quantize_nearest f h1 h2
+  rw [hq]
+  by_cases h : k = 8192
+  · right; subst h; decide
+  · left
+    exact (coord_short_iff _).2 ⟨k, hk1, by omega, feq_self _ (ofInt_div64_not_nan k (by omega))⟩
+
+
+/-- converse of `range_bits` -/
+theorem range_of_bits (f : F32) (hn : f.isNaN = false) (hpos : f.nb < 2147483648 → f.nb < 1124073472)
+    (hneg : 2147483648 ≤ f.nb → f.nb - 2147483648 ≤ 1124073472) :
+    F32.ofInt (-128) ≤ f ∧ f < F32.ofInt 128 := by
+  have hn' : Num.isNaN .f32 f.nb = false := hn
+  have c1 : Num.isNaN .f32 3271557120 = false := by decide
+  have c2 : Num.isNaN .f32 1124073472 = false := by decide
+  have hb := nb_lt f
+  constructor
+  · show Num.le .f32 (F32.ofInt (-128)).nb f.nb = true
+    rw [nb_m128]
+    simp only [Num.le, toOrd_f32 _ hn', toOrd_f32 _ c1, decide_eq_true_eq]
+    split <;> simp <;> omega
+  · show Num.lt .f32 f.nb (F32.ofInt 128).nb = true
+    rw [nb_128]
+    simp only [Num.lt, toOrd_f32 _ hn', toOrd_f32 _ c2, decide_eq_true_eq]
+    split <;> simp <;> omega
+
+theorem fields_of_nb (f : F32) (sg ex mt : Nat) (h : f.nb = sg * 2147483648 + ex * 8388608 + mt)
+    (_hs : sg < 2) (hex : ex < 256) (hmt : mt < 8388608) : sgn f = sg ∧ expo f = ex ∧ mant f = mt := by
+  have e : f.bits.toNat = f.nb := rfl
+  simp only [sgn, expo, mant, e, h]
+  refine ⟨by omega, by omega, by omega⟩
+
+theorem div64_zero : F32.ofInt 0 / F32.ofInt 64 = ⟨0⟩ := by decide
+
+/-- `float32(k)/64` is `k/64` exactly: scaled by 2^149 it is `k·2^143` -/
+theorem scaled_ofInt_div64 (k : Int) (hk : k.natAbs < 16777216) :
+    scaled (F32.ofInt k / F32.ofInt 64) = k * 2^143 := by
+  by_cases h0 : k = 0
+  · subst h0; rw [div64_zero]
+    have : scaled ⟨0⟩ = 0 := by
+      have h1 : expo ⟨0⟩ = 0 := by decide
+      have h2 : mant ⟨0⟩ = 0 := by decide
+      simp [scaled, h1, h2]
+    rw [this]; omega
+  · obtain ⟨kk, hkk, hq1, hq2, hnb⟩ := ofInt_div64_bits k h0 hk
+    obtain ⟨hs, he, hm⟩ := fields_of_nb _ _ _ _ hnb (by split <;> omega) (by omega) (by omega)
+    have hex0 : ¬ (144 - kk = 0) := by omega
+    have e1 : k.natAbs * 2^kk - 8388608 + 8388608 = k.natAbs * 2^kk := by omega
+    have e2 : k.natAbs * 2^kk * 2^(144 - kk - 1) = k.natAbs * 2^143 := by
+      have : kk + (144 - kk - 1) = 143 := by omega
+      rw [Nat.mul_assoc, ← Nat.pow_add, this]
+    have c : ((2^143 : Nat) : Int) = 2^143 := by rw [Int.natCast_pow]; rfl
+    unfold scaled
+    rw [he, hm, if_neg hex0, e1]
+    by_cases hneg : k < 0
+    · rw [if_pos hneg] at hs
+      rw [hs, if_pos rfl, Int.neg_mul, ← Int.natCast_mul, e2, Int.natCast_mul, c]
+      have : (k.natAbs : Int) = -k := by omega
+      rw [this, Int.neg_mul, Int.neg_neg]
+    · rw [if_neg hneg] at hs
+      have h10 : ¬ ((0 : Nat) = 1) := by omega
+      rw [hs, if_neg h10, ← Int.natCast_mul, e2, Int.natCast_mul, c]
+      have : (k.natAbs : Int) = k := by omega
+      rw [this]
+
+/-- multiples of 1/64 in [-128, 128) satisfy the float guard -/
+theorem ofInt_div64_in_range (k : Int) (h1 : -8192 ≤ k) (h2 : k < 8192) :
+    F32.ofInt (-128) ≤ F32.ofInt k / F32.ofInt 64 ∧ F32.ofInt k / F32.ofInt 64 < F32.ofInt 128 := by
+  by_cases h0 : k = 0
+  · subst h0; rw [div64_zero]; decide
+  · obtain ⟨kk, hkk, hq1, hq2, hnb⟩ := ofInt_div64_bits k h0 (by omega)
+    have hkk10 : 10 ≤ kk := by
+      rcases Nat.lt_or_ge kk 10 with h | h
+      · have hp := Nat.pow_le_pow_right (n := 2) (by omega) (show kk ≤ 9 by omega)
+        have hm := Nat.mul_le_mul (show k.natAbs ≤ 8192 by omega) hp
+        have c : 8192 * 2^9 = 4194304 := by decide
+        omega
+      · exact h
+    have hkk10' : kk = 10 → k < 0 ∧ k.natAbs * 2^kk = 8388608 := by
+      intro h; subst h
+      have c : (2:Nat)^10 = 1024 := by decide
+      rw [c] at hq1 ⊢
+      have : k.natAbs = 8192 := by omega
+      exact ⟨by omega, by rw [this]⟩
+    -- magnitude bits: below those of 128.0, or equal for k = -8192
+    have hmagn : (144 - kk) * 8388608 + (k.natAbs * 2^kk - 8388608) < 1124073472 ∨
+        (k < 0 ∧ (144 - kk) * 8388608 + (k.natAbs * 2^kk - 8388608) = 1124073472) := by
+      by_cases h10 : kk = 10
+      · obtain ⟨hn, hx⟩ := hkk10' h10
+        right; refine ⟨hn, ?_⟩
+        rw [hx, h10]
+      · left
+        generalize k.natAbs * 2^kk = X at *
+        clear hkk10'
+        omega
+    clear hkk10' hkk10 hq1 hq2
+    rw [Nat.add_assoc] at hnb
+    obtain ⟨Mg, hMg⟩ : ∃ Mg, Mg = (144 - kk) * 8388608 + (k.natAbs * 2^kk - 8388608) := ⟨_, rfl⟩
+    rw [← hMg] at hmagn hnb
+    clear hMg
+    apply range_of_bits _ (ofInt_div64_not_nan k (by omega))
+    · intro hlt; rw [hnb] at hlt ⊢
+      split at hlt <;> split <;> omega
+    · intro hge; rw [hnb] at hge ⊢
+      split at hge <;> split <;> omega
+
+/-- quantising twice is the same as quantising once (bit for bit) -/
+theorem quantize_idem (f : F32) :
+    Enc.quantize false (Enc.quantize false f) = Enc.quantize false f := by
+  by_cases hr : F32.ofInt (-128) ≤ f ∧ f < F32.ofInt 128
+  · obtain ⟨k, hk1, hk2, hq, _, _⟩ := quantize_nearest f hr.1 hr.2
+    rw [hq]
+    by_cases h : k = 8192
+    · subst h
+      apply quantize_out_of_range
+      decide
+    · obtain ⟨r1, r2⟩ := ofInt_div64_in_range k hk1 (by omega)
+      obtain ⟨k', _, _, hq', hs1, hs2⟩ := quantize_nearest _ r1 r2
+      rw [hq', scaled_ofInt_div64 k (by omega)] at *
+      have : k' = k := by omega
+      rw [this]
+  · rw [quantize_out_of_range f hr, quantize_out_of_range f hr]
+
 end Ivg.Quant
